@@ -1102,6 +1102,37 @@ func checkC10(c *Ctx) {
 			inCompound = false
 			c.count("comparison_and_its_complement_on_one_attribute")
 		}
+		if inCompound && c.R.Chance(1, 3) {
+			// a first operand whose path breaks off BELOW an existing parent (the parent survives on whatever the visitor
+			// keeps of the walk), and that parent holds a key named like the attribute of the second operand with a value of
+			// another presence / nullness / truth: the second operand must still be resolved from the top of the object
+			inner := avObj()
+			var decoy *AV
+			switch {
+			case a == nil:
+				decoy = pick(c.R, []*AV{{K: AVBool, B: true}, {K: AVBool, B: false}, avInt(0)})
+			case a.K == AVBool:
+				decoy = pick(c.R, []*AV{{K: AVBool, B: !a.B}, avNull()})
+			default:
+				decoy = pick(c.R, []*AV{avNull(), {K: AVBool, B: true}, {K: AVBool, B: false}})
+			}
+			inner.Set(path[0], decoy)
+			inner.Set("other", avInt(1))
+			obj.Set("hh9", inner)
+			deep := []string{"hh9", "gone", "q"}
+			if c.R.Chance(1, 3) {
+				deep = append(deep, "r")
+			}
+			if c.R.Chance(1, 2) {
+				first := &Node{T: NPres, Path: deep}
+				rule = &Node{T: NLogic, Or: true, L: first, R: lf}
+			} else {
+				first := &Node{T: NCmp, Path: deep, Op: 13, Lit: Lit{Kind: "null", Text: "null"}}
+				rule = &Node{T: NLogic, Or: false, L: first, R: lf}
+			}
+			inCompound = false
+			c.count("after_a_path_that_breaks_off_below_an_existing_parent")
+		}
 		if inCompound {
 			// a first operand that is true and leaves a non-nil left operand behind
 			obj.Set("zz9", avInt(1))
